@@ -13,6 +13,10 @@ from .mir import Program
 VERIF = facts.VERIF
 
 
+class _Stop(Exception):
+    pass
+
+
 class AnchorLost(Exception):
     """A selector no longer resolves / a counted floor is not met (fail closed)."""
 
@@ -58,6 +62,9 @@ class Ob:
         if et is None:
             self.cx._close(self)
             return False
+        if et is _Stop:
+            self.cx._close(self)
+            return True
         if et is AnchorLost:
             self.fail("anchor-lost", "anchor-lost/" + _slug(str(ev)), f"anchor lost: {ev}")
             self.cx._close(self)
@@ -97,6 +104,11 @@ class Ob:
         else:
             self.fail("refuted", key, msg, construct, where, path)
         return bool(cond)
+
+    def refute_and_stop(self, key, msg, construct=None, where=None):
+        """Record a refutation whose absence the rest of this obligation depends on, and end the obligation."""
+        self.fail("refuted", key, msg, construct, where)
+        raise _Stop()
 
     def floor(self, items, n, what, exact=False):
         """At least (or exactly) n matched sites, counted by hand on the pinned tree."""
